@@ -63,6 +63,11 @@ func VerifH_DescriptionNormal() {
 	for i := 0; i < n; i++ {
 		// ASCII texts without NUL, VT, FF (the statement's alphabet: letters, blanks, tabs, CR, LF, parentheses, '#')
 		verifrt.Assume(x[i] != 0 && x[i] < 0x80 && x[i] != '\v' && x[i] != '\f')
+		if verifrt.Bound("ALPHA") == 1 {
+			// the small alphabet of the statement: letters, blanks, tabs, CR, LF, parentheses
+			c := x[i]
+			verifrt.Assume(c == 'a' || c == ' ' || c == '\t' || c == '\r' || c == '\n' || c == '(' || c == ')')
+		}
 	}
 	y, err := description(append([]byte(nil), x...))
 	if err != nil {
